@@ -249,6 +249,20 @@ def build(rng, family):
     if rng.random() < 0.25:
         rng.shuffle(deck.cells)
         deck.tags.add('cells.unordered')
+    roll = rng.random()
+    if roll < 0.3:
+        # importances other than 1: any positive value keeps the cell
+        for cel in deck.cells:
+            if float(cel.imp['n']) != 0:
+                cel.imp = {'n': rng.choice(['2', '0.5', '0.25', '1e-3', '4',
+                                            '.1'])}
+        deck.tags.add('imp.fractional')
+        if roll < 0.15:
+            # ... given on an IMP data card, by position in the cell block
+            deck.imp_cards.append(('n', [c.imp['n'] for c in deck.cells]))
+            for cel in deck.cells:
+                cel.imp = None
+            deck.tags.add('imp.data-card')
     if mixed:
         deck.tags.add('c01.mixed')
     if has_cellc_in_not(deck):
